@@ -230,6 +230,14 @@ func c18Case(c *Ctx, i int64) {
 			}
 		}
 		src := &crSource{Source: &gen.Source{Data: data, Mode: srcMode, G: gi, Budget: 3000 + 3*len(data)}}
+		if t%40 == 7 && len(data) >= 65535 && len(data) <= 140000 {
+			// a healthy source that hands out small pieces with many (0, nil) answers in between (hundreds of
+			// empty reads while one block is being filled, never two in a row)
+			src.Source.Mode, src.Source.MaxChunk = gen.ReadZeroMixed, 48
+			src.Source.Budget = 100000 + 40*len(data)
+			srcMode = gen.ReadZeroMixed
+			c.Count("sources_with_many_empty_reads", 1)
+		}
 		res := crRead(c, src, o, func(k int) int { return seq[k%3] })
 		c.Count("read_patterns", 1)
 		c.Count("read_calls", int64(res.calls))
